@@ -8,4 +8,8 @@ open RawPanelVerif.C20
 #print axioms glyph_facts
 #print axioms glyph_index_in_range
 #print axioms drawChar_index_in_range
+#print axioms noEarly_of_fits
+#print axioms translation
+#print axioms translation_fits
+#print axioms scale_zero_spacing
 #print axioms scale_with_spacing_counterexample
